@@ -243,7 +243,7 @@ func EvalBands(p *load.Program) (*Bands, error) {
 		}
 	}
 	if sw == nil {
-		return nil, fmt.Errorf("band.GetConfig: dispatch switch not found")
+		return evalBandsGeneric(p, ev, gc)
 	}
 	params := gc.Type.Params.List
 	if len(params) != 3 {
@@ -391,6 +391,181 @@ func EvalBands(p *load.Program) (*Bands, error) {
 				b.Configs = append(b.Configs, cfg)
 			}
 		}
+	}
+	return b, nil
+}
+
+// evalBandsGeneric: GetConfig is not a switch over constructor calls (a table of constructors, a chain of helpers …).
+// The function itself is evaluated for every constant of type Name declared in the package, both repeater settings
+// and both dwell times; names that yield equal bands in all four settings form one configuration (deprecated aliases),
+// and the 400 ms configuration is listed only where it differs from the unlimited one.
+func evalBandsGeneric(p *load.Program, ev *Evaluator, gc *ast.FuncDecl) (*Bands, error) {
+	pk := ev.Pkg
+	var pnames []string
+	for _, f := range gc.Type.Params.List {
+		for _, n := range f.Names {
+			pnames = append(pnames, n.Name)
+		}
+	}
+	if len(pnames) != 3 {
+		return nil, fmt.Errorf("band.GetConfig: expected 3 named parameters")
+	}
+	root := p.Pkg("")
+	dtVal := func(name string) (Value, error) {
+		c, ok := root.Types.Scope().Lookup(name).(*types.Const)
+		if !ok {
+			return nil, fmt.Errorf("lorawan.%s not found", name)
+		}
+		return constToValue(c.Val(), c.Type()), nil
+	}
+	dtNo, err := dtVal("DwellTimeNoLimit")
+	if err != nil {
+		return nil, err
+	}
+	dt400, err := dtVal("DwellTime400ms")
+	if err != nil {
+		return nil, err
+	}
+	type nameConst struct {
+		val string
+		pos token.Pos
+	}
+	var names []nameConst
+	seenVal := map[string]bool{}
+	for _, n := range pk.Types.Scope().Names() {
+		c, ok := pk.Types.Scope().Lookup(n).(*types.Const)
+		if !ok {
+			continue
+		}
+		nt, ok := c.Type().(*types.Named)
+		if !ok || nt.Obj().Name() != "Name" || nt.Obj().Pkg() != pk.Types {
+			continue
+		}
+		v, ok := constToValue(c.Val(), c.Type()).(Str)
+		if !ok || seenVal[v.V] {
+			continue
+		}
+		seenVal[v.V] = true
+		names = append(names, nameConst{v.V, c.Pos()})
+	}
+	sort.Slice(names, func(i, j int) bool { return names[i].pos < names[j].pos })
+	if len(names) == 0 {
+		return nil, fmt.Errorf("band: no constants of type Name")
+	}
+	b := &Bands{Ev: ev, Prog: p}
+	type evald struct {
+		name string
+		v    [2][2]*Struct // [rep][d4]
+	}
+	var evs []*evald
+	for _, nc := range names {
+		e := &evald{name: nc.val}
+		okAll := true
+		for ri, rc := range []bool{false, true} {
+			for di, d4 := range []bool{false, true} {
+				dt := dtNo
+				if d4 {
+					dt = dt400
+				}
+				ev.Diag = nil
+				ev.Steps = 0
+				res, ok := ev.Call(gc, map[string]Value{pnames[0]: Str{nc.val}, pnames[1]: Bool{rc}, pnames[2]: dt})
+				if !ok || len(res) < 1 {
+					b.Problems = append(b.Problems, fmt.Sprintf("%s[rep=%v,dwell400=%v]: GetConfig left the evaluable subset: %v", nc.val, rc, d4, ev.Diag))
+					okAll = false
+					continue
+				}
+				v := res[0]
+				if tp, ok := v.(Tuple); ok && len(tp) > 0 {
+					v = tp[0] // `return ctor(args)` hands the constructor's results through
+				}
+				if pp, ok := v.(*Ptr); ok {
+					v = pp.Elem
+				}
+				st, ok := v.(*Struct)
+				if !ok {
+					if _, isNil := v.(Nil); isNil {
+						okAll = false // a name GetConfig does not know (an error result): not a configuration
+						continue
+					}
+					b.Problems = append(b.Problems, fmt.Sprintf("%s[rep=%v,dwell400=%v]: GetConfig does not return a band struct: %s", nc.val, rc, d4, Show(v)))
+					okAll = false
+					continue
+				}
+				e.v[ri][di] = st
+			}
+		}
+		if okAll {
+			evs = append(evs, e)
+		}
+	}
+	used := make([]bool, len(evs))
+	for i, e := range evs {
+		if used[i] {
+			continue
+		}
+		group := []string{e.name}
+		for j := i + 1; j < len(evs); j++ {
+			if used[j] {
+				continue
+			}
+			same := true
+			for ri := 0; ri < 2 && same; ri++ {
+				for di := 0; di < 2 && same; di++ {
+					same = DeepEqual(e.v[ri][di], evs[j].v[ri][di])
+				}
+			}
+			if same {
+				used[j] = true
+				group = append(group, evs[j].name)
+			}
+		}
+		// deprecated aliases (with underscores) first, as in a `case EU_863_870, EU868:` clause
+		sort.SliceStable(group, func(x, y int) bool {
+			return strings.Contains(group[x], "_") && !strings.Contains(group[y], "_")
+		})
+		b.CaseNames = append(b.CaseNames, group...)
+		for ri, rc := range []bool{false, true} {
+			for di, d4 := range []bool{false, true} {
+				st := e.v[ri][di]
+				if d4 && DeepEqual(st, e.v[ri][0]) {
+					continue // no dwell-time dependence
+				}
+				cfg := &BandConfig{Names: group, Ctor: "GetConfig", Repeater: rc, Dwell400: d4, CtorDecl: gc, Value: st, TypeName: st.Type}
+				base, ok := st.Fields["band"].(*Struct)
+				if !ok {
+					b.Problems = append(b.Problems, fmt.Sprintf("%s: no embedded band struct", cfg.ID()))
+					continue
+				}
+				cfg.Base = base
+				cfg.Methods = map[string]*ast.FuncDecl{}
+				cfg.MethodOwner = map[string]string{}
+				for _, fd := range load.AllFuncDecls(pk) {
+					if fd.Recv == nil {
+						continue
+					}
+					if load.RecvTypeName(fd.Recv.List[0].Type) == "band" {
+						if _, have := cfg.Methods[fd.Name.Name]; !have {
+							cfg.Methods[fd.Name.Name] = fd
+							cfg.MethodOwner[fd.Name.Name] = "band"
+						}
+					}
+				}
+				for _, fd := range load.AllFuncDecls(pk) {
+					if fd.Recv == nil {
+						continue
+					}
+					if load.RecvTypeName(fd.Recv.List[0].Type) == st.Type {
+						cfg.Methods[fd.Name.Name] = fd
+						cfg.MethodOwner[fd.Name.Name] = st.Type
+					}
+				}
+				b.Configs = append(b.Configs, cfg)
+			}
+		}
+	}
+	if len(b.Configs) == 0 {
+		return nil, fmt.Errorf("band.GetConfig: no configuration could be evaluated: %v", b.Problems)
 	}
 	return b, nil
 }
